@@ -65,6 +65,13 @@ def pair_cases(tier):
                 for order in itertools.permutations(subset):
                     for dpos in range(0, k + 1):
                         out.append(dict(kind='pairs', lines=[[i, fl.get(i, 0)] for i in order], default_at=dpos))
+    # the same pair defined more than once, in either orientation, with different values: the last line decides both orientations
+    for i in range(len(upairs)):
+        for f1, f2 in itertools.product((0, 1), repeat=2):
+            for other in (None, (i + 1) % len(upairs)):
+                for dpos in (0, 2):
+                    lines = [[i, f1, 0], [i, f2, 1]] if other is None else [[i, f1, 0], [other, 0, 0], [i, f2, 1]]
+                    out.append(dict(kind='pairs', lines=lines, default_at=min(dpos, len(lines))))
     return out
 
 
@@ -73,11 +80,13 @@ def pair_text(case):
     upairs = [(a, b) for i, a in enumerate(names) for b in names[i:]]
     ref = {}
     lines = []
-    for n, (i, flip) in enumerate(case['lines']):
+    for n, ln in enumerate(case['lines']):
+        i, flip = ln[0], ln[1]
+        gen_ = ln[2] if len(ln) > 2 else 0
         a, b = upairs[i]
         if flip:
             a, b = b, a
-        val = (1.0 + 0.25 * i, 2.0 + 0.5 * i)
+        val = (1.0 + 0.25 * i + 0.1 * gen_, 2.0 + 0.5 * i + 0.1 * gen_)
         ref[(a, b)] = ref[(b, a)] = val
         lines.append('sidechain_cutoffs %s %s %s %s\n' % (a, b, val[0], val[1]))
     lines.insert(case['default_at'], 'sidechain_cutoffs default 3.5 4.5\n')
